@@ -29,6 +29,7 @@ type ng15Case struct {
 	DataErr bool
 	Gz      bool
 	GzCut   int
+	NoModel bool
 }
 
 func ng15Parse(ops []string) (c ng15Case) {
@@ -62,6 +63,8 @@ func ng15Parse(ops []string) (c ng15Case) {
 		case "gzcut":
 			c.Gz = true
 			c.GzCut = atoi(arg)
+		case "nomodel":
+			c.NoModel = true
 		}
 	}
 	return
@@ -82,7 +85,7 @@ func ngTimed(rd io.Reader, ro ngReadOpts, bound int64) *ngSessionResult {
 	select {
 	case r := <-ch:
 		return r
-	case <-time.After(10 * time.Second):
+	case <-time.After(30 * time.Second):
 		return nil
 	}
 }
@@ -125,9 +128,11 @@ func (c15ng) Run(c Case) (res Result) {
 	r := ngTimed(rd, k.Ro, int64(len(k.Raw))+slack)
 	if r == nil {
 		res.Obs = []string{"new=hang"}
-		res.Oracle = append(res.Oracle, "C15:hang\tno result within 10 s")
+		res.Oracle = append(res.Oracle, "C15:hang\tno result within 30 s")
 	} else {
-		if k.GzCut >= 0 {
+		if k.NoModel {
+			res.Obs = []string{"nomodel"}
+		} else if k.GzCut >= 0 {
 			res.Obs = []string{"gzcut"} // not modelled: only the oracle clauses below apply
 		} else {
 			res.Obs = r.Lines()
@@ -260,7 +265,12 @@ func ng15Values(f ngField, orig uint64) []uint64 {
 	case 4:
 		v := []uint64{0, 1, 3, 4, 7, 8, 11, 12, 16, 20, 24, 28, 32, 0xffffffff, 0x7fffffff, 0x80000000, 0xfffffffc, orig - 1, orig + 1, orig + 3, orig + 4, orig - 4, orig + 8, orig - 8}
 		if f.Class == "snaplen" {
-			v = []uint64{0, 1, 3, 4, 0x2000000, orig - 1, orig + 1}
+			// the zero-copy call allocates the declared snap length up front (allowed by the property):
+			// keep the declared value small enough for the harness itself
+			v = []uint64{0, 1, 3, 4, 0x100000, orig + 1}
+			if orig > 0 {
+				v = append(v, orig-1)
+			}
 		}
 		return v
 	}
@@ -270,7 +280,13 @@ func ng15Values(f ngField, orig uint64) []uint64 {
 func (c15ng) Gen(rng *rand.Rand, tier string) []Case {
 	var out []Case
 	add := func(raw []byte, extra ...string) {
-		out = append(out, Case{Prop: "C15ng", Ops: append([]string{"raw:" + hx(raw)}, extra...)})
+		ops := []string{"raw:" + hx(raw)}
+		for _, e := range extra {
+			if e != "" {
+				ops = append(ops, e)
+			}
+		}
+		out = append(out, Case{Prop: "C15ng", Ops: ops})
 	}
 	ros := []string{"000", "100", "011", "111", "010"}
 	thorough := tier == "thorough"
@@ -342,9 +358,6 @@ func (c15ng) Gen(rng *rand.Rand, tier string) []Case {
 	// (c) golden files cut at every offset (small ones), at a stride (larger ones)
 	gold := ngGoldenFiles()
 	for gi, g := range gold {
-		if len(g.Data) > 20000 && !thorough {
-			continue
-		}
 		stride := 1
 		if !thorough {
 			if len(g.Data) > 400 {
@@ -352,13 +365,25 @@ func (c15ng) Gen(rng *rand.Rand, tier string) []Case {
 			} else if gi%3 != 0 {
 				stride = 7
 			}
-		} else if len(g.Data) > 5000 {
-			stride = 1 + len(g.Data)/3000
+		} else if len(g.Data) > 400 {
+			stride = 1 + len(g.Data)/400
+		}
+		nomodel := ""
+		if len(g.Data) > 20000 {
+			// too long for the Peano fuel of the extracted model: implementation-side oracle only, thorough tier
+			if !thorough {
+				continue
+			}
+			nomodel = "nomodel"
+			stride = 1 + len(g.Data)/40
 		}
 		for k := gi % stride; k <= len(g.Data); k += stride {
-			add(g.Data[:k], "ro:"+ros[(gi+k)%2], []string{"mode:copy", "mode:zc"}[k%2], "tag:truncated-golden")
+			add(g.Data[:k], "ro:"+ros[(gi+k)%2], []string{"mode:copy", "mode:zc"}[k%2], "tag:truncated-golden", nomodel)
 		}
-		add(g.Data, "ro:000", "mode:copy", "tag:golden")
+		add(g.Data, "ro:000", "mode:copy", "tag:golden", nomodel)
+		if nomodel != "" {
+			continue
+		}
 		// length-like bytes of a golden file forced to extremes
 		nm := 12
 		if thorough {
